@@ -281,6 +281,36 @@ def run(ctx):
               message=f"_run_trial captures {sorted(caught)} around the objective; KeyboardInterrupt/Exception/TrialPruned must all be captured so that the trial is told",
               how="handlers present", nontrivial=False)
 
+    # ------------------------------------------------------------ R02.6 ask(): a trial that exists is never abandoned RUNNING
+    ctx.rule("R02.6", "Study.ask: once the trial exists in the storage, every exceptional exit (sampler hooks, relative sampling, fixed "
+             "distributions raising) first stores a terminal state for it")
+    ask = p.func("optuna.study.study.Study.ask")
+    gask = CFG(ask.node, name=ask.qualname)
+    ctor = [n for n in gask.stmt_nodes() for c in n.calls() if (dotted(c.func) or "").split(".")[-1] == "Trial"]
+    ctx.require(ctor, "R02.6: Study.ask no longer constructs the Trial")
+    stores6 = [n for n in gask.stmt_nodes() for c in n.calls() if isinstance(c.func, ast.Attribute) and c.func.attr == "set_trial_state_values"]
+    # the store itself may fail (storage error): that is the storage's exception, not an abandoned trial
+    # (the property speaks of Exception and KeyboardInterrupt: an arm catching both lets nothing of that kind through)
+    def _ok6(a, k, b):
+        if a.kind == "except" and k == "nomatch":
+            hn = set(handler_names(a.ast.type))
+            if "BaseException" in hn or {"Exception", "KeyboardInterrupt"} <= hn:
+                return False
+        return True
+    r6 = gask.reachable(ctor, avoid_nodes=stores6, edge_ok=_ok6)
+    ctx.check(gask.raise_exit not in r6, "R02.6", ask.short, "no-running-trial-left-by-ask",
+              message="Study.ask can raise after the trial was created / claimed in the storage without storing a terminal state: when the sampler's before_trial, "
+                      "infer_relative_search_space or sample_relative raises (or a fixed distribution is invalid) the trial stays RUNNING for ever - optimize() raises "
+                      "with a RUNNING trial left behind",
+              how="from the Trial construction on, every path to an exceptional exit passes set_trial_state_values(trial_id, FAIL)",
+              witness=gask.witness([gask.raise_exit], guards=stores6, src=ctor[0], edge_ok=_ok6) if gask.raise_exit in r6 else None)
+    for n in stores6:
+        for c in n.calls():
+            if isinstance(c.func, ast.Attribute) and c.func.attr == "set_trial_state_values":
+                st6 = kwarg(c, "state", 1)
+                ctx.check(st6 is not None and norm(st6).endswith("TrialState.FAIL") and c.args and norm(c.args[0]) == "trial_id", "R02.6", ask.short, "abandoned-trial-is-failed",
+                          message=f"ask() stores `{norm(st6) if st6 is not None else None}` for `{norm(c.args[0]) if c.args else None}`", how="set_trial_state_values(trial_id, state=TrialState.FAIL)")
+
     # ------------------------------------------------------------ R02.5 loop accounting
     ctx.rule("R02.5", "_optimize_sequential: one _run_trial and one round of callbacks per iteration, callbacks on the normal continuation; "
              "i_trial incremented once before the run; n_jobs branch submits n_trials=1 per submission")
